@@ -182,7 +182,11 @@ func (z *Decimal) Add(x, y *Decimal) *Decimal {
 		// ±0 + ±0
 		z.acc = Exact
 		z.form = zero
-		z.neg = x.neg && y.neg // -0 + -0 == -0
+		if x.neg != y.neg {
+			z.neg = z.mode == ToNegativeInf // -0 + +0 == +0, or -0 when rounding toward -Inf
+		} else {
+			z.neg = x.neg // -0 + -0 == -0
+		}
 		return z
 	}
 
@@ -1377,7 +1381,11 @@ func (z *Decimal) Sub(x, y *Decimal) *Decimal {
 		// ±0 - ±0
 		z.acc = Exact
 		z.form = zero
-		z.neg = x.neg && !y.neg // -0 - +0 == -0
+		if x.neg == y.neg {
+			z.neg = z.mode == ToNegativeInf // +0 - +0 == +0, or -0 when rounding toward -Inf
+		} else {
+			z.neg = x.neg // -0 - +0 == -0
+		}
 		return z
 	}
 
